@@ -38,6 +38,8 @@ func (cl *cluster) instAbs(i primitives.InstanceId) int {
 }
 
 func (cl *cluster) hashName(h primitives.BlockHash) string {
+	cl.bodiesMu.Lock()
+	defer cl.bodiesMu.Unlock()
 	for body := range cl.bodies {
 		if string(hashOfBody(body)) == string(h) {
 			return body
